@@ -41,7 +41,13 @@ def _setup_diverged(sess, R, M):
 def _is_app(sess):
     """`NEW app` sessions (harness/app.go, Driver/App.lean): a whole application behind Flame.ServeHTTP — and
     `NEW dsl` sessions (harness/dsl.go): routes declared through Group/Combo/Routes/Any; both compared line by line"""
-    return bool(sess) and sess[0].split()[:2] in (["NEW", "app"], ["NEW", "dsl"])
+    return bool(sess) and sess[0].split()[:2] in (["NEW", "app"], ["NEW", "dsl"], ["NEW", "appfull"])
+
+
+def _is_appfull(sess):
+    """`NEW appfull` sessions (harness/appfull.go, Driver/AppFull.lean): the composed application model (injector scopes,
+    return values, Static, Renderer, Recovery) on one real instance serving a sequence of requests"""
+    return bool(sess) and sess[0].split()[:2] == ["NEW", "appfull"]
 
 
 def cmp_dispatch(sess, R, M, params=False, chains=False, setup=False, urls=False):
@@ -117,12 +123,13 @@ def router_stats(nontrivial_req, rule):
         for (a, b) in sessions:
             routes = []
             app = _is_app(lines[a:a + 1])
+            pre = "appfull" if _is_appfull(lines[a:a + 1]) else "app"
             if app:
-                dist["app_sessions"] = dist.get("app_sessions", 0) + 1
+                dist[pre + "_sessions"] = dist.get(pre + "_sessions", 0) + 1
             for i in range(a + 1, b):
                 op = lines[i]
                 if app and op.startswith("REQ "):
-                    k = "app_" + (R[i].split() or ["?"])[0]      # app_h / app_nf / app_stop / app_q
+                    k = pre + "_" + (R[i].split() or ["?"])[0]      # app_h / app_nf / app_stop / app_q; appfull_run / appfull_stop
                     dist[k] = dist.get(k, 0) + 1
                 if op.startswith("ADD "):
                     t = op.split()
@@ -142,8 +149,9 @@ def router_stats(nontrivial_req, rule):
                     dist["url"] += 1
                 elif _is_req(op):
                     dist["ireq" if op.startswith("I") else "treq" if op.startswith("T") else "req"] += 1
-                    h = R[i].startswith("h ")
-                    dist["dispatched" if h else "notfound"] += 1
+                    if pre != "appfull":       # an appfull line says run / stop, not which route
+                        h = R[i].startswith("h ")
+                        dist["dispatched" if h else "notfound"] += 1
                     key = hashlib.sha1(("|".join(routes) + "#" + op).encode()).hexdigest()
                     if key in seen:
                         continue
